@@ -137,7 +137,8 @@ def run(R: vlib.Run):
     nprng = np.random.default_rng(R.seed + 7)
     d = os.path.join(vlib.SCRATCH, f"c07_{os.getpid()}")
     os.makedirs(d, exist_ok=True)
-    corr = []
+    corr = []          # invert, downsample, subband, zero-DM pipelines
+    corr2 = []         # mask, samps, chans, bands pipelines
     FCH1, TSAMP = 400.0, 0.001
     try:
         N0 = 7 if R.tier == "quick" else 10
@@ -173,6 +174,22 @@ def run(R: vlib.Run):
                     check, attempt = make_checkers(R, base, tag, out)
                     kb = (nbits, fl)
 
+                    def corr_file(api, path, ps):
+                        """queue (pipeline, input, plan, parameters, integer samples of the file actually written) for the vm_compute comparison"""
+                        h2, got2, _ = reread(path)
+                        if h2 != "exc":
+                            corr2.append((api, x, gulp, start, nsamps, ps, got2.astype(np.int64).ravel().tolist()))
+
+                    def corr_files(api, paths, ps):
+                        """the same for a whole multi-file call: the files of the returned list, concatenated in that order (model: batched files)"""
+                        allv = []
+                        for p_ in paths:
+                            h2, got2, _ = reread(p_)
+                            if h2 == "exc":
+                                return
+                            allv += got2.astype(np.int64).ravel().tolist()
+                        corr2.append((api, x, gulp, start, nsamps, ps, allv))
+
                     # --- invert_freq
                     R.case(("invert", kb, start, nsamps, gulp), nontrivial=multi, regime="invert_freq")
                     if attempt("invert_freq", lambda: fil.invert_freq(outfile_name=out, gulp=gulp, start=start, nsamps=nsamps, quiet=True)):
@@ -188,29 +205,41 @@ def run(R: vlib.Run):
                     if attempt("apply_channel_mask", lambda: fil.apply_channel_mask(mask, mv, outfile_name=out, gulp=gulp, start=start, nsamps=nsamps, quiet=True)):
                         w = sel.astype(np.float64); w[:, mask] = mv
                         check("apply_channel_mask", w, nbits, {"mask": mask.tolist(), "mask_value": mv})
+                        if nbits == 8:
+                            corr_file("mask", out, [mv] + mask.astype(int).tolist())
                     # --- extract_samps
                     R.case(("samps", kb, start, nsamps, gulp), nontrivial=multi, regime="extract_samps")
                     if attempt("extract_samps", lambda: fil.extract_samps(start, nsamps, outfile_name=out, gulp=gulp, quiet=True)):
                         check("extract_samps", sel, nbits)
+                        if nbits == 8:
+                            corr_file("samps", out, [])
                     # --- extract_chans: 1, 2 or all channels in arbitrary (unsorted) order; file i of the returned list is channel chans[i]
                     chans = rng.sample(range(nch), rng.choice([1, 2, 2, nch]))
                     R.case(("chans", kb, start, nsamps, gulp, tuple(chans)), nontrivial=multi, regime="extract_chans")
-                    names = attempt("extract_chans", lambda: fil.extract_chans(chans, outfile_base=os.path.join(d, "ch"), batch_size=rng.choice([1, 200]), gulp=gulp, start=start, nsamps=nsamps, quiet=True),
+                    bsz = rng.choice([1, 200])
+                    names = attempt("extract_chans", lambda: fil.extract_chans(chans, outfile_base=os.path.join(d, "ch"), batch_size=bsz, gulp=gulp, start=start, nsamps=nsamps, quiet=True),
                                     {"chans": chans})
                     if names is not None:
                         if len(names) != len(chans):
                             R.fail(f"extract_chans-{tag}-count", "number of channel files differs from the number of channels asked for", dict(base, chans=chans, files=len(names)))
                         for cnum, nm in zip(chans, names):
                             check("extract_chans", sel[:, [cnum]], 32, {"chan": cnum, "chans": chans}, path=nm)
+                            if nbits == 8:
+                                corr_file("chans", nm, [cnum])
+                        if nbits == 8 and len(names) == len(chans):
+                            corr_files("chansfiles", names, [bsz] + list(chans))
                     if gulp == 2:          # the default channel list: every channel, in order
                         R.case(("chans-all", kb, start, nsamps, gulp), nontrivial=multi, regime="extract_chans")
-                        names = attempt("extract_chans", lambda: fil.extract_chans(outfile_base=os.path.join(d, "ca"), batch_size=rng.choice([3, 200]), gulp=gulp, start=start, nsamps=nsamps, quiet=True),
+                        bsz = rng.choice([3, 200])
+                        names = attempt("extract_chans", lambda: fil.extract_chans(outfile_base=os.path.join(d, "ca"), batch_size=bsz, gulp=gulp, start=start, nsamps=nsamps, quiet=True),
                                         {"chans": None})
                         if names is not None:
                             if len(names) != nch:
                                 R.fail(f"extract_chans-{tag}-count", "number of channel files differs from the number of channels", dict(base, chans=None, files=len(names)))
                             for cnum, nm in zip(range(nch), names):
                                 check("extract_chans", sel[:, [cnum]], 32, {"chan": cnum, "chans": None}, path=nm)
+                            if nbits == 8 and len(names) == nch:
+                                corr_files("chansfiles", names, [bsz] + list(range(nch)))
 
                     # --- extract_bands
                     def bands_case(cstart, nb, cps, omit_cps=False):
@@ -221,13 +250,18 @@ def run(R: vlib.Run):
                         prm = {"chanstart": cstart, "nchans_sel": nb, "chanpersub": None if omit_cps else cps}
                         R.case(("bands", kb, start, nsamps, gulp, cstart, nb, prm["chanpersub"]), nontrivial=multi, regime="extract_bands")
                         kw = {} if omit_cps else {"chanpersub": cps}
-                        names = attempt("extract_bands", lambda: fil.extract_bands(cstart, nb, outfile_base=os.path.join(d, "bd"), batch_size=rng.choice([1, 200]), gulp=gulp, start=start, nsamps=nsamps, quiet=True, **kw), prm)
+                        bsz = rng.choice([1, 200])
+                        names = attempt("extract_bands", lambda: fil.extract_bands(cstart, nb, outfile_base=os.path.join(d, "bd"), batch_size=bsz, gulp=gulp, start=start, nsamps=nsamps, quiet=True, **kw), prm)
                         if names is not None:
                             if len(names) != nbands:
                                 R.fail(f"extract_bands-{tag}-count", "number of band files differs from nchans/chanpersub", dict(base, **prm, files=len(names)))
                             for ib, nm in enumerate(names[:nbands]):
                                 c0 = cstart + ib * width
                                 check("extract_bands", sel[:, c0:c0 + width], nbits, dict(prm, band=ib), path=nm)
+                                if nbits == 8:
+                                    corr_file("bands", nm, [cstart, width, ib])
+                            if nbits == 8 and len(names) == nbands:
+                                corr_files("bandsfiles", names, [bsz, cstart, nb, width])
 
                     cps = max(2, 8 // nbits)           # narrowest band whose output sample is a whole number of bytes (chanpersub = 1 is refused by the library)
                     cstart = rng.choice([0, cps]) if nch >= 2 * cps else 0
@@ -250,7 +284,7 @@ def run(R: vlib.Run):
                         if attempt("downsample", lambda: fil.downsample(tfactor=tf, ffactor=ff, outfile_name=out, gulp=gulp, start=start, nsamps=nsamps, quiet=True), {"tfactor": tf, "ffactor": ff}):
                             w, tol = down_want(sel, nbits, tf, ff, fl)
                             check("downsample", w, nbits, {"tfactor": tf, "ffactor": ff}, tol=tol)
-                            if nbits == 8 and (tf, ff) in DOWN_BASE:
+                            if nbits == 8:
                                 h2, got2, _ = reread(out)
                                 if h2 != "exc":
                                     corr.append(("down", x, gulp, start, nsamps, [tf, ff], got2.astype(np.int64).ravel().tolist()))
@@ -267,7 +301,7 @@ def run(R: vlib.Run):
                             if attempt("subband", lambda: fil.subband(dm, nsub, outfile_name=out, gulp=gulp, start=start, nsamps=nsamps, quiet=True), {"dm": dm, "nsub": nsub}):
                                 w, wabs = subband_want(sel, delays, nsub)
                                 check("subband", w, 32, {"dm": dm, "nsub": nsub, "delays": delays.tolist()}, tol=1e-6 * wabs if fl else 0)
-                                if nbits == 8 and nsub in (1, 2):
+                                if nbits == 8:
                                     h2, got2, _ = reread(out)
                                     if h2 != "exc":
                                         corr.append(("subband", x, gulp, start, nsamps, [md, nsub] + delays.tolist(), got2.astype(np.int64).ravel().tolist()))
@@ -395,9 +429,10 @@ def run(R: vlib.Run):
                                        {"nbits": nbits, "dm": dm, "gulp": gulp, "start": start, "nsamps": nsamps, "nsub": nsub, "delays": dl.tolist()})
         # ---- correspondence --------------------------------------------------------------------
         rng.shuffle(corr)
-        corr = corr[: (400 if R.tier == "quick" else 2000)]
+        rng.shuffle(corr2)
+        corr = corr[: (400 if R.tier == "quick" else 2000)] + corr2[: (400 if R.tier == "quick" else 1500)]
         per = 200
-        code = {"invert": 0, "down": 1, "subband": 2, "zerodm": 3}
+        code = {"invert": 0, "down": 1, "subband": 2, "zerodm": 3, "mask": 4, "samps": 5, "chans": 6, "bands": 7, "chansfiles": 8, "bandsfiles": 9}
         for si in range(0, len(corr), per):
             sh = corr[si:si + per]
             rows = [f"({code[a]}, {vlib.zlist(x.ravel())}, {x.shape[1]}, {x.shape[0]}, ({g}, {s}, {n}), {vlib.zlist(p)}, {vlib.zlist(o)})" for a, x, g, s, n, p, o in sh]
